@@ -104,11 +104,12 @@ QUICK_MICRO = ["m03_star", "m05_opt", "m07_nullable_rule", "m11_deep", "e02_cond
                "q01_parts", "q02_parts_shared",
                "k01_noskip", "o03_choice_rule", "o04_choice_in_loop", "o05_choice_loop_alt", "o06_choice_elide_rename",
                "o09_choice_commit_rule", "o11_choice_star", "o12_choice_cond_elide_rename",
-               "m12_loop_in_recursive", "n10_rename_nameless_creation", "x14_prefix_postfix", "x01_left", "x17_two_pratt_rules", "o14_action_after_commit"]
+               "m12_loop_in_recursive", "n10_rename_nameless_creation", "x14_prefix_postfix", "x01_left", "x17_two_pratt_rules", "o14_action_after_commit",
+               "p09_pred_loop_in_loop", "x18_atom_nullable_tail"]
 QUICK_SKEL = {"fe", "m03_star", "k01_noskip", "q01_parts", "o03_choice_rule", "ex_json"}
 # units that get the bounded native run (C16 relational clause) although Verus verifies all their functions
 REL_UNITS = {"m03_star", "m05_opt", "m11_deep", "ex_json", "ex_toml", "q01_parts", "x07_mixed", "p01_pred_alt", "n04_marker_loop", "e02_cond", "t02_return_cond",
-             "m07_nullable_rule", "q02_parts_shared", "x03_right1", "x14_prefix_postfix", "kf_f18_operator_follows_inside"}
+             "m07_nullable_rule", "q02_parts_shared", "x03_right1", "x14_prefix_postfix", "kf_f18_operator_follows_inside", "x18_atom_nullable_tail"}
 QUICK_EX = ["calc", "json", "l", "toml"]
 
 
